@@ -33,6 +33,9 @@ import (
 	oidc "github.com/lukaszraczylo/traefikoidc"
 )
 
+// realTime is set by families that run outside a synctest bubble
+var realTime bool
+
 const sessKey = "0123456789abcdef0123456789abcdef-deployment-key"
 const otherSessKey = "0123456789abcdef0123456789abcdef-deployment-kez"
 const issuerURL = "https://idp.test"
@@ -366,8 +369,12 @@ func newInstance(p *provider, d http.Handler, mod func(*oidc.Config)) *oidc.Trae
 	if err != nil {
 		panic(err)
 	}
-	time.Sleep(time.Second)
-	synctest.Wait()
+	if realTime { // outside a synctest bubble (family sched): wait for the discovery goroutine in real time
+		time.Sleep(150 * time.Millisecond)
+	} else {
+		time.Sleep(time.Second)
+		synctest.Wait()
+	}
 	return h.(*oidc.TraefikOidc)
 }
 
